@@ -605,7 +605,7 @@ def render_layout(stmts, seed, file_index, opts=None):
         if opts.get('blank') and rng.random() < 0.15:
             lines.append(rng.choice(['', '   ', '\t']))
         if opts.get('comments') and rng.random() < 0.12:
-            lines.append(_ws(rng, opts, 0) + '; ' + rng.choice(['note', 'ldi a, 5', 'x: .byte 1', '#define Q 1', 'comment; again']))
+            lines.append(_ws(rng, opts, 0) + '; ' + rng.choice(['note', 'ldi a, 5', 'x: .byte 1', '#define Q 1', 'comment; again', 'the 3.5" floppy', "it's", '"open', "'c"]))
         text = layout_stmt(rng, opts, st)
         indent = _ws(rng, opts, 0) if opts.get('ws') else ('    ' if k not in ('label', 'org', 'memzone', 'align') and not text.startswith('#') else '')
         if k == 'label' and opts.get('label_same_line') and i + 1 < n and rng.random() < 0.5 \
@@ -624,7 +624,7 @@ def render_layout(stmts, seed, file_index, opts=None):
         if opts.get('ws') and rng.random() < 0.3:
             line += _ws(rng, opts, 1)
         if opts.get('comments') and rng.random() < 0.25 and not text.startswith('#include'):
-            line += _ws(rng, opts, 0) + ';' + rng.choice([' c', 'x', ' nop', ' "q"', ''])
+            line += _ws(rng, opts, 0) + ';' + rng.choice([' c', 'x', ' nop', ' "q"', '', ' 3.5" disk', " isn't", ' say "hi', " 'x"])
         lines.append(line)
         i += 1
     return '\n'.join(lines) + '\n'
